@@ -42,16 +42,33 @@ def _cfgs(depth, quick):
         for default in (0, 7):
             for shaped in (True, False):
                 out.append((fmts, default, shaped))
+    out.append((("C",) * depth, 0, "filled"))
+    out.append((("U",) * depth, 7, "filled"))
     if quick:
-        return [(("C",) * depth, 0, True), (("U",) * depth, 7, False), (("C",) * depth, 7, True)][:2 if depth == 3 else 3]
+        return [(("C",) * depth, 0, True), (("U",) * depth, 7, False), (("C",) * depth, 7, True)][:2 if depth == 3 else 3] + \
+            ([(("C",) * depth, 0, "filled")] if depth == 2 else [])
     return out
 
 
 def mk(spec, depth, cfg):
     fmts, default, shaped = cfg
     ids_ = list(RANK_IDS[:depth])
-    t = Tensor.fromFiber(ids_, mktree(spec, depth, tag=1, default=default),
-                         shape=[2] * depth if shaped else None, default=default, name="t")
+    if shaped == "filled":
+        # created empty without a declared shape and filled through references (the rank attributes hold no shape)
+        t = Tensor(rank_ids=ids_, default=default, name="t")
+
+        def fill(f, prefix):
+            for c, p in zip(f.coords, f.payloads):
+                if isinstance(p, Fiber):
+                    t.getPayloadRef(*(prefix + (c,)))
+                    fill(p, prefix + (c,))
+                else:
+                    ref = t.getPayloadRef(*(prefix + (c,)))
+                    ref <<= p.value
+        fill(mktree(spec, depth, tag=1, default=default), ())
+    else:
+        t = Tensor.fromFiber(ids_, mktree(spec, depth, tag=1, default=default),
+                             shape=[2] * depth if shaped else None, default=default, name="t")
     for r, f in zip(ids_, fmts):
         t.setFormat(r, f)
     return t
@@ -98,6 +115,15 @@ def _ops_tensor(depth):
         "split-of-split": lambda T: _second(T, lambda F: F.splitUniform(1, depth=1), first=lambda T: T.splitUniform(1)),
         "flatten-of-split": lambda T: _second(T, lambda F: F.flattenRanks(coord_style="absolute"),
                                               first=lambda T: T.splitUniform(1)),
+        # the same below the top rank (depth-3 trees)
+        "flatten-d1": lambda T: T.flattenRanks(depth=1),
+        "flatten-d1-linear": lambda T: T.flattenRanks(depth=1, coord_style="linear"),
+        "merge-d1-absolute": lambda T: T.mergeRanks(depth=1, coord_style="absolute"),
+        "merge-d1-relative": lambda T: T.mergeRanks(depth=1, coord_style="relative"),
+        "swap-d1": lambda T: T.swapRanks(depth=1),
+        "fiber-flatten-d1": lambda T: T.getRoot().flattenRanks(depth=1),
+        "fiber-merge-d1": lambda T: T.getRoot().mergeRanks(depth=1, coord_style="absolute"),
+        "fiber-swap-d1": lambda T: T.getRoot().swapRanks(depth=1),
         "updateCoords": lambda T: T.updateCoords(lambda i, c, p: c + 1),
         "updateCoords-leaf": lambda T: T.updateCoords(lambda i, c, p: c + 1, depth=last),
         "updatePayloads-leaf": lambda T: T.updatePayloads(lambda i, c, p: p * 2, depth=last),
@@ -140,8 +166,12 @@ def _second(T, op, first=None):
 
 NEEDS_CONTENT = ("fiber-swap", "fiber-flatten", "fiber-merge", "swap", "flatten", "flatten-linear", "flatten-pair",
                  "merge-absolute", "merge-relative", "flatten-unflatten", "unflatten-of-flat", "flatten-of-flat",
-                 "merge-of-flat", "swizzle-of-flat", "flatten-of-split")
-DEPTH3_ONLY = ("flatten-of-flat", "merge-of-flat", "swizzle-of-flat")
+                 "merge-of-flat", "swizzle-of-flat", "flatten-of-split") + (
+    "flatten-d1", "flatten-d1-linear", "merge-d1-absolute", "merge-d1-relative", "swap-d1", "fiber-flatten-d1",
+    "fiber-merge-d1", "fiber-swap-d1")
+D1 = ("flatten-d1", "flatten-d1-linear", "merge-d1-absolute", "merge-d1-relative", "swap-d1", "fiber-flatten-d1",
+      "fiber-merge-d1", "fiber-swap-d1")
+DEPTH3_ONLY = ("flatten-of-flat", "merge-of-flat", "swizzle-of-flat") + D1
 
 
 def _leaf_ops():
@@ -310,6 +340,8 @@ def case_value_returning(case):
         feats.add("nonzero_default")
     if not cfg[2]:
         feats.add("estimated_shape")
+    elif cfg[2] == "filled":
+        feats.add("built_empty_filled_by_reference")
     T = mk(spec, depth, cfg)
     if len(_leaves(T)) >= 2:
         core.CUR.nt("value-returning")
@@ -487,6 +519,8 @@ def case_read_only(case):
         feats.add("nonzero_default")
     if not cfg[2]:
         feats.add("estimated_shape")
+    elif cfg[2] == "filled":
+        feats.add("built_empty_filled_by_reference")
     cur = core.CUR
     for name, fn in _READERS[depth].items():
         T = mk(spec, depth, cfg)
